@@ -319,6 +319,8 @@ def _timex_agree(kind, v):
         return
     if not kind.endswith('range'):
         pt = _point(*tk)
+        if kind == 'datetime' and pt is not None and pt[0] is not None and pt[1] is None and v.get('value') not in (None, 'not resolved'):
+            assert False, ('date-time value whose definite TIMEX is a bare date', v)
         if pt is not None and pt[0] is not None:
             assert 1 <= pt[0][1] <= 12 and 1 <= pt[0][2] <= 31, ('definite TIMEX with a month or day that no calendar has', v)
         if pt is not None and pt[1] is not None:
